@@ -55,51 +55,69 @@ Section GMStop.
 
   Notation T := (gm_T E gradf alpha proxg).
 
-  Lemma gm_resid_zero_x (acc : bool) (s : gm_state E) :
-    gm_resid (update (GMClass E gradf alpha proxg acc) s) = 0 ->
-    gm_x (update (GMClass E gradf alpha proxg acc) s) = gm_x s.
-  Proof.
-    unfold update. cbn [GMClass upd_ set_iter get_iter gm_set_iter]. unfold gm__update.
-    destruct acc; cbn [gm_resid gm_x]; intros Hr;
-      apply (div_eq0 _ _ Halpha) in Hr; apply (vnorm0 H) in Hr; apply (sub_eq0 H) in Hr; exact Hr.
-  Qed.
+  Notation C0 := (GMClass E gradf alpha proxg false).
+  Notation C1 := (GMClass E gradf alpha proxg true).
+  Notation "<< x , y >>" := (ipdot H x y) (at level 0, format "<< x ,  y >>").
+
+  Lemma gm_fields_noacc (s : gm_state E) :
+    gm_x (update C0 s) = T (gm_x s) /\
+    gm_resid (update C0 s) = sqrt <<ipsub H (gm_x (update C0 s)) (gm_x s), ipsub H (gm_x (update C0 s)) (gm_x s)>> / alpha.
+  Proof. split; reflexivity. Qed.
+
+  Lemma gm_fields_acc (s : gm_state E) :
+    exists c : R,
+      gm_x (update C1 s) = T (gm_z s) /\
+      gm_resid (update C1 s)
+      = (if Rleb (sqrt <<ipsub H (gm_x (update C1 s)) (gm_z s), ipsub H (gm_x (update C1 s)) (gm_z s)>> / alpha)
+                 (sqrt <<ipsub H (gm_x (update C1 s)) (gm_x s), ipsub H (gm_x (update C1 s)) (gm_x s)>> / alpha)
+         then sqrt <<ipsub H (gm_x (update C1 s)) (gm_x s), ipsub H (gm_x (update C1 s)) (gm_x s)>> / alpha
+         else sqrt <<ipsub H (gm_x (update C1 s)) (gm_z s), ipsub H (gm_x (update C1 s)) (gm_z s)>> / alpha) /\
+      gm_z (update C1 s)
+      = ipadd H (gm_x (update C1 s)) (ipscale H c (ipsub H (gm_x (update C1 s)) (gm_x s))).
+  Proof. eexists. repeat split; reflexivity. Qed.
 
   (* [core] non-accelerated: resid = 0  ==>  x is a fixed point of T = prox_{alpha g}(. - alpha grad f(.)),
      and a further update leaves x unchanged *)
   Theorem gm_early_stop_fixed (s : gm_state E) :
-    let C := GMClass E gradf alpha proxg false in
-    gm_resid (update C s) = 0 ->
-    gm_x (update C s) = gm_x s /\ T (gm_x s) = gm_x s /\ gm_x (update C (update C s)) = gm_x (update C s).
+    gm_resid (update C0 s) = 0 ->
+    gm_x (update C0 s) = gm_x s /\ T (gm_x s) = gm_x s /\ gm_x (update C0 (update C0 s)) = gm_x (update C0 s).
   Proof.
-    cbv zeta. intros Hr. pose proof (gm_resid_zero_x false s Hr) as Hx.
-    assert (HT : T (gm_x s) = gm_x s).
-    { rewrite <- Hx at 2. reflexivity. }
-    repeat split; [exact Hx|exact HT|].
-    rewrite Hx. transitivity (T (gm_x (update (GMClass E gradf alpha proxg false) s))); [reflexivity|].
-    rewrite Hx. exact HT.
+    intros Hr. destruct (gm_fields_noacc s) as (X1 & R1).
+    rewrite R1 in Hr. apply (div_eq0 _ _ Halpha) in Hr. apply (vnorm0 H) in Hr. apply (sub_eq0 H) in Hr.
+    assert (HT : T (gm_x s) = gm_x s) by (rewrite <- X1; exact Hr).
+    repeat split; [exact Hr|exact HT|].
+    destruct (gm_fields_noacc (update C0 s)) as (X2 & _). rewrite X2, Hr. exact HT.
   Qed.
 
-  (* accelerated: resid = 0 forces x' = x and z' = x' (the momentum is switched off), so the NEXT
-     update is a plain T-step from x'; it leaves x unchanged under the side condition T x' = x'
-     (which does not follow from resid = 0: x' = T z, not T x) *)
-  Theorem gm_accel_early_stop (s : gm_state E) :
-    let C := GMClass E gradf alpha proxg true in
-    gm_resid (update C s) = 0 ->
-    gm_x (update C s) = gm_x s /\ gm_z (update C s) = gm_x (update C s) /\
-    gm_x (update C (update C s)) = T (gm_x (update C s)) /\
-    (T (gm_x (update C s)) = gm_x (update C s) -> gm_x (update C (update C s)) = gm_x (update C s)).
+  (* [core] accelerated (current code: resid = max(||x - x_old||, ||x - z_old||) / alpha, z_old the point the step
+     was taken from): resid = 0 forces x' = x_old = z_old, hence z' = x' and T x' = x' -- a genuine fixed point,
+     and the next update leaves x unchanged.  No side condition. *)
+  Theorem gm_accel_early_stop_fixed (s : gm_state E) :
+    0 < alpha ->
+    gm_resid (update C1 s) = 0 ->
+    gm_x (update C1 s) = gm_x s /\ gm_x (update C1 s) = gm_z s /\ gm_z (update C1 s) = gm_x (update C1 s) /\
+    T (gm_x (update C1 s)) = gm_x (update C1 s) /\
+    gm_x (update C1 (update C1 s)) = gm_x (update C1 s).
   Proof.
-    cbv zeta. intros Hr. pose proof (gm_resid_zero_x true s Hr) as Hx.
-    assert (Hz : gm_z (update (GMClass E gradf alpha proxg true) s) = gm_x (update (GMClass E gradf alpha proxg true) s)).
-    { assert (Zc : exists c : R, gm_z (update (GMClass E gradf alpha proxg true) s)
-                     = ipadd H (gm_x (update (GMClass E gradf alpha proxg true) s))
-                         (ipscale H c (ipsub H (gm_x (update (GMClass E gradf alpha proxg true) s)) (gm_x s))))
-        by (eexists; reflexivity).
-      destruct Zc as (c & Zc). rewrite Zc, Hx. vec H. }
-    assert (Hn : gm_x (update (GMClass E gradf alpha proxg true) (update (GMClass E gradf alpha proxg true) s))
-                 = T (gm_z (update (GMClass E gradf alpha proxg true) s))) by reflexivity.
-    repeat split; [exact Hx|exact Hz|rewrite Hn, Hz; reflexivity|].
-    intros HT. rewrite Hn, Hz. exact HT.
+    intros Hpos Hr. destruct (gm_fields_acc s) as (c & X1 & R1 & Z1).
+    rewrite R1 in Hr.
+    set (n1 := sqrt <<ipsub H (gm_x (update C1 s)) (gm_x s), ipsub H (gm_x (update C1 s)) (gm_x s)>>) in *.
+    set (n2 := sqrt <<ipsub H (gm_x (update C1 s)) (gm_z s), ipsub H (gm_x (update C1 s)) (gm_z s)>>) in *.
+    assert (P1 : 0 <= n1 / alpha) by (apply Rmult_le_pos; [apply sqrt_pos|left; apply Rinv_0_lt_compat, Hpos]).
+    assert (P2 : 0 <= n2 / alpha) by (apply Rmult_le_pos; [apply sqrt_pos|left; apply Rinv_0_lt_compat, Hpos]).
+    assert (Both : n1 / alpha = 0 /\ n2 / alpha = 0).
+    { destruct (Rleb (n2 / alpha) (n1 / alpha)) eqn:Cmp.
+      - apply Rleb_true in Cmp. split; lra.
+      - apply Rleb_false in Cmp. split; lra. }
+    destruct Both as (E1 & E2).
+    apply (div_eq0 _ _ Halpha) in E1. apply (div_eq0 _ _ Halpha) in E2.
+    apply (vnorm0 H) in E1. apply (vnorm0 H) in E2.
+    pose proof (sub_eq0 H _ _ E1) as Ex. pose proof (sub_eq0 H _ _ E2) as Ez.
+    assert (Hz : gm_z (update C1 s) = gm_x (update C1 s)) by (rewrite Z1, E1; vec H).
+    assert (HT : T (gm_x (update C1 s)) = gm_x (update C1 s)).
+    { rewrite Ez at 1. symmetry. exact X1. }
+    repeat split; try assumption.
+    destruct (gm_fields_acc (update C1 s)) as (c' & X2 & _). rewrite X2, Hz. exact HT.
   Qed.
 End GMStop.
 
